@@ -81,7 +81,8 @@ Inductive sigc := SigEmpty | SigBad | SigOK.   (* len = 0 / integrity fails / in
 Inductive pattr := PAbsent | PInvalid | PName. (* io.cncf.notary.verificationPlugin *)
 Inductive revr :=
 | RevOK | RevFail | RevErr
-| RevBadShape.      (* nil entry / more results than certificates: breaks the Validator contract *)
+| RevBadShape.      (* not one non-nil result per certificate (nil entry, more or fewer results, (nil, nil)):
+                       breaks the Validator contract; since fix d78db00 an ordinary failure *)
 Inductive presp :=
 | PRErr
 | PRNil                                     (* (nil, nil): breaks the plugin.VerifyPlugin contract *)
@@ -189,8 +190,19 @@ Definition discover (pm : pmgr) (sc : scenario) : disc :=
 
 Inductive nat_res := NPanic | NStop (e : errc) (rs : list (vtype * bool)) | NGo (rs : list (vtype * bool)).
 
+(* verifyRevocation: does the revocation validation fail? None = the code panics.
+   [fixed] = with checkRevocationResults (fix d78db00): an answer that is not one non-nil result
+   per certificate is an ordinary failure ("unable to check revocation status"); before the fix
+   revocationFinalResult dereferenced a nil entry / indexed certChain out of range *)
+Definition rev_failed (fixed : bool) (r : revr) : option bool :=
+  match r with
+  | RevOK => Some false
+  | RevBadShape => if fixed then Some true else None
+  | _ => Some true
+  end.
+
 (* authenticity .. revocation; [caps] = verification capabilities of the plugin *)
-Definition native (l : level) (sc : scenario) (caps : list cap) : nat_res :=
+Definition native_gen (fixed : bool) (l : level) (sc : scenario) (caps : list cap) : nat_res :=
   let rI := (TInt, false) in
   let f0 := s_auth_fail sc in
   if crit (act l TAuth) f0 then NStop (XResult TAuth) [rI; (TAuth, f0)] else
@@ -203,14 +215,17 @@ Definition native (l : level) (sc : scenario) (caps : list cap) : nat_res :=
   let rs3 := rs2 ++ [(TTs, s_ts_fail sc)] in
   if crit (act l TTs) (s_ts_fail sc) then NStop (XResult TTs) rs3 else
   if negb (action_eqb (act l TRev) Skip) && negb (has_cap CapRev caps) then
-    match s_rev sc with
-    | RevBadShape => NPanic         (* revocationFinalResult: certResult.Result on nil / certChain[i] out of range *)
-    | r =>
-        let f := match r with RevOK => false | _ => true end in
+    match rev_failed fixed (s_rev sc) with
+    | None => NPanic
+    | Some f =>
         let rs4 := rs3 ++ [(TRev, f)] in
         if crit (act l TRev) f then NStop (XResult TRev) rs4 else NGo rs4
     end
   else NGo rs3.
+
+Definition native := native_gen true.
+(* before fix d78db00 *)
+Definition native_v0 := native_gen false.
 
 Fixpoint set_auth_failed (rs : list (vtype * bool)) : list (vtype * bool) :=
   match rs with
@@ -561,8 +576,7 @@ Definition model (i : input) : obs :=
 
 (* ---------- the contracts of the injected components (input contract) ---------- *)
 Definition sc_wf (sc : scenario) : bool :=
-  match s_presp sc with PRNil => false | _ => true end
-  && match s_rev sc with RevBadShape => false | _ => true end.
+  match s_presp sc with PRNil => false | _ => true end.
 
 Definition item_wf (it : item) : bool := match it with FetchErr => true | Sig sc => sc_wf sc end.
 
